@@ -336,7 +336,7 @@ META = {
         "design_ref": "DESIGN.md §7 C03", "note": _TRUST + " Outside: trees above the node budget, custom plugin nodes, randomly generated deeper trees.",
     },
     "C06": {
-        "text": "Bounded symbolic model checking of the pretty printer's deferred-whitespace state machine on every generated program within the budget, with comments/blank lines on any token: pretty and compact outputs are re-read by the real lexer and parser and must give the generated tree; formatting the formatted output is a byte-for-byte fixed point; indent options change only leading whitespace; the semicolon option changes only statement terminators.",
+        "text": "Bounded symbolic model checking of the pretty printer's deferred-whitespace state machine on every generated program within the budget, with comments/blank lines on any token: pretty and compact outputs are re-read by the real lexer and parser and must give the generated tree; formatting the formatted output is a byte-for-byte fixed point; indent options change only leading whitespace; the semicolon option changes only statement terminators. At text level every valid string literal of <= K content bytes (escapes, LF / CR / CR LF line continuations) must be emitted with the same text by the compact and the pretty printer.",
         "design_ref": "DESIGN.md §7 C06", "note": _TRUST,
     },
     "C07": {
@@ -344,7 +344,7 @@ META = {
         "design_ref": "DESIGN.md §7 C07", "note": _TRUST + " The value comparison is syntactic (R4); no JavaScript engine is run.",
     },
     "C08": {
-        "text": "Bounded symbolic model checking of source-map generation end to end (parser stub -> Compile().WithSourceMap -> real encodeMappings -> reference decoder): with all token start positions solver variables, every decoded segment must sit on the start of a token of the generated code (found by an independent scanner), carry the source start of the same lexeme, be named iff it is an identifier, every identifier must be covered, and segments must be ordered - for compact and pretty output, with and without comments.",
+        "text": "Bounded symbolic model checking of source-map generation end to end (parser stub -> Compile().WithSourceMap -> real encodeMappings -> reference decoder): with all token start positions solver variables, every decoded segment must sit on the start of a token of the generated code (found by an independent scanner), carry the source start of the same lexeme, be named iff it is an identifier, every identifier must be covered, and segments must be ordered - for compact and pretty output, with and without comments. Token start positions are the lexer's: the inductive step lemma of C10 (one NextToken step from an arbitrary cursor state over a symbolic byte window) is part of this check.",
         "design_ref": "DESIGN.md §7 C08", "note": _TRUST + " Start positions themselves are C10's lemma.",
     },
     "C15": {
@@ -360,19 +360,19 @@ META = {
         "design_ref": "DESIGN.md §7 C05", "note": _TRUST,
     },
     "C11": {
-        "text": "Bounded symbolic model checking of ParseProgram on arbitrary token buffers (27 parser contexts x <= 2 tokens of solver-quantified type, flags and positions; also after an earlier plugin-configured job, and on numeric tokens the parser must validate) in all four mode combinations (modes are solver variables): termination within the instruction budget, no panic, error value iff error list non-empty, no nil or typed-nil entries in statement lists, every error range is a token range, and error-free trees have all mandatory children and compile in four configurations without panicking.",
+        "text": "Bounded symbolic model checking of ParseProgram on arbitrary token buffers (27 parser contexts x <= 2 tokens of solver-quantified type, flags and positions; also after an earlier plugin-configured job, and on numeric tokens the parser must validate) in all four mode combinations (modes are solver variables): termination within the instruction budget, no panic, error value iff error list non-empty, no nil or typed-nil entries in statement lists, every error range is a token range, and error-free trees have all mandatory children and compile in four configurations without panicking. The same contract is decided at text level for a short context (code position, inside a string / escape / backtick literal) followed by <= K arbitrary bytes through the real lexer, where error ranges are compared with the lexer's own tokens.",
         "design_ref": "DESIGN.md §7 C11", "note": _TRUST,
     },
     "C12": {
-        "text": "Bounded symbolic model checking of strict-mode error detection on generated valid programs corrupted by truncation inside an open bracket/block, deletion of a single delimiter, or removal of a statement separator between operands: strict parsing must report an error and the first error must not lie before the last intact token.",
+        "text": "Bounded symbolic model checking of strict-mode error detection on generated valid programs corrupted by truncation inside an open bracket/block, deletion of a single delimiter, or removal of a statement separator between operands: strict parsing must report an error and the first error must not lie before the last intact token. Text level: truncated string / backtick literals and digit-led alphanumeric text that is not one numeric literal (0x, 1e, 1a, 0b2) must be rejected.",
         "design_ref": "DESIGN.md §7 C12", "note": _TRUST + " Invalidity of the corrupted text is by construction (unbalanced delimiters, adjacent operands), not by a reference parser; general single-token deletions and unterminated literals are outside this check.",
     },
     "C13": {
-        "text": "Bounded symbolic model checking of the parser modes: on arbitrary token buffers strict-accepted implies tolerant returns the identical tree with no errors, and smart mode equals default mode (tree and errors) when no line-initial ( or [ occurs; on generated programs tolerant mode accepts fused statements and open blocks keeping every statement, and smart mode treats a line-initial ( or [ as a statement start.",
+        "text": "Bounded symbolic model checking of the parser modes: on arbitrary token buffers strict-accepted implies tolerant returns the identical tree with no errors, and smart mode equals default mode (tree and errors) when no line-initial ( or [ occurs; on generated programs tolerant mode accepts fused statements and open blocks keeping every statement, and smart mode treats a line-initial ( or [ as a statement start. The mode flags are copied at Build time: a parser keeps the modes it was built with when the shared builder is reconfigured before the parser is used.",
         "design_ref": "DESIGN.md §7 C13", "note": _TRUST,
     },
     "C16": {
-        "text": "Bounded symbolic model checking of the parsing-context stack: on every generated program (nested blocks, function declarations and expressions) every statement/expression interceptor invocation sees IsInFunction/CurrentContext equal to the generator's nesting oracle for the current token; on arbitrary token buffers in every mode the context is back at top level with a balanced stack after parsing.",
+        "text": "Bounded symbolic model checking of the parsing-context stack: on every generated program (nested blocks, function declarations and expressions) every statement/expression interceptor invocation sees IsInFunction/CurrentContext equal to the generator's nesting oracle for the current token; on arbitrary token buffers in every mode the context is back at top level with a balanced stack after parsing. The nesting clauses are also decided under plugin behaviour: an interceptor that pushes a context type of its own around block statements and one that strips parsed statements by returning nil.",
         "design_ref": "DESIGN.md §7 C16", "note": _TRUST,
     },
     "C10": {
